@@ -7,7 +7,7 @@ proof (Props/C12.v over Inval/Model.v, with Gen/DiffTables.v regenerated from /r
   allows from the records the model itself carried over from the previous runs
 + oracle written from the property text, judging the journals directly (independent of the model).
 """
-import os, re, json, fnmatch, time, copy
+import os, re, json, fnmatch, time, copy, sqlite3, functools, tempfile
 from concurrent.futures import ThreadPoolExecutor
 from . import common as C
 from .xvc import XvcRepo
@@ -19,13 +19,15 @@ TRUSTED = [
     "Coq 8.16.1 kernel, coqc; vm_compute in Examples and *_refuted witnesses only; no native_compute",
     "axioms: none (Print Assumptions: Closed under the global context for every theorem of Props/C12.v)",
     "extraction: ExtrOcamlBasic only; ocamlfind ocamlopt 4.13.1; coq/extract/common.ml + inval_driver.ml (parsing, printing, sort_uniq of printed outcomes)",
-    "table extraction: harness/src/bin/tabledrv.rs executes the real update_with_actual / apply_diff / Diff::changed over their case space; gen/difftables.py (regular expressions over pipeline/src/pipeline/mod.rs for the RunConditions triples, the end-of-run guard and flags, and the two source facts separating the code before/after the repair of P15)",
+    "table extraction: harness/src/bin/tabledrv.rs executes the real update_with_actual / apply_diff / Diff::changed over their case space; and the real GlobDep::diff_superficial / GlobDep::diff_thorough over (paths digest, metadata digest, content digest) same/different (records built by serde from chosen digests): the switch fixed_P73 of the model is read off that table; gen/difftables.py (regular expressions over pipeline/src/pipeline/mod.rs for the RunConditions triples, the end-of-run guard and flags, the two source facts separating the code before/after the repair of P15, and over deps/mod.rs:dependencies_to_path for 'the graph is built without the path-metadata provider')",
     "correspondence machinery: vlib/c12.py (scenario generator, simulated file map, per-kind fingerprint abstraction fp_code, journal reader), vlib/xvc.py, the hook-instrumented xvc binary (XVC_VERIF_JITTER only varies schedules)",
-    "modelled, not verified: pipeline/src/pipeline/mod.rs step_state_handler / s_* decision functions and the end of the_grand_pipeline_loop as Inval/Model.v; the dependency kinds are abstracted to (superficial, thorough) fingerprints computed by vlib/c12.py:fp_code from deps/{file,glob,glob_items,param,lines,line_items,regex,regex_items,generic}.rs and validated kind by kind by the correspondence; regex / YAML parsing, hashing, the notify watcher behind XvcPathMetadataProvider, the process pool are not modelled",
+    "modelled, not verified: pipeline/src/pipeline/mod.rs step_state_handler / s_* decision functions and the end of the_grand_pipeline_loop as Inval/Model.v; the dependency kinds are abstracted to (superficial, thorough) fingerprints computed by vlib/c12.py:fp_code from deps/{file,glob,glob_items,param,lines,line_items,regex,regex_items,generic,sqlite_query}.rs (url is not covered: offline) and validated kind by kind by the correspondence (that GlobDep::update_content_digest covers the member names is validated by the rename edits only); regex / YAML parsing, hashing, the notify watcher behind XvcPathMetadataProvider, the process pool are not modelled",
     "environment assumptions: edits_visible (every edit the runner makes changes size or mtime; mtimes are set explicitly with os.utime, xvc compares size + SystemTime mtime at ns granularity); step commands write only the journal and their declared outputs, and outputs are read by downstream steps only; ideal hashes",
 ]
 
-KINDS = ["file", "glob", "glob_items", "param", "lines", "line_items", "regex", "regex_items", "generic", "step"]
+KINDS = ["file", "glob", "glob_items", "param", "lines", "line_items", "regex", "regex_items", "generic", "sqlite", "step"]
+# not modelled: url (needs the network: everything here is offline)
+SQL_QUERY = "SELECT v FROM t WHERE k < 10 ORDER BY k"
 
 
 # =================================================================================================
@@ -41,6 +43,46 @@ def lines_of(b):
     if s and s[-1] == b"":
         s.pop()
     return [l[:-1] if l.endswith(b"\r") else l for l in s]
+
+
+@functools.lru_cache(maxsize=None)
+def sql_db(rows):
+    """the bytes of a SQLite database with table t(k INTEGER PRIMARY KEY, v TEXT) holding rows (tuple of (k, v))"""
+    d = tempfile.mkdtemp(prefix="xvc-verif-c12sql-")
+    try:
+        p = os.path.join(d, "x.sqlite")
+        con = sqlite3.connect(p)
+        con.execute("PRAGMA page_size = 512")          # keeps scenario files small
+        con.execute("CREATE TABLE t (k INTEGER PRIMARY KEY, v TEXT)")
+        con.executemany("INSERT INTO t VALUES (?, ?)", list(rows))
+        con.commit()
+        con.close()
+        return open(p, "rb").read()
+    finally:
+        C.rm_rf(d)
+
+
+@functools.lru_cache(maxsize=None)
+def sql_query(data, query):
+    """runs the query on the database whose bytes are data; the result as SqliteQueryDep::update_digest joins it:
+    the columns of a row concatenated (text as it is, integers and reals printed), rows joined by LF"""
+    d = tempfile.mkdtemp(prefix="xvc-verif-c12sql-")
+    try:
+        p = os.path.join(d, "x.sqlite")
+        with open(p, "wb") as fh:
+            fh.write(data)
+        con = sqlite3.connect(p)
+        try:
+            rows = con.execute(query).fetchall()
+        finally:
+            con.close()
+        return "\n".join("".join(str(c) for c in r) for r in rows)
+    finally:
+        C.rm_rf(d)
+
+
+def sql_rows(data):
+    return tuple(tuple(l.split("\x1f")) for l in sql_query(data, "SELECT k || char(31) || v FROM t ORDER BY k").split("\n") if l)
 
 
 def meta(fs, p):
@@ -62,7 +104,7 @@ def param_value(data, key):
 
 def dep_paths(dep, fs):
     k = dep[0]
-    if k in ("file", "param", "lines", "line_items", "regex", "regex_items"):
+    if k in ("file", "param", "lines", "line_items", "regex", "regex_items", "sqlite"):
         return [dep[1]]
     if k in ("glob", "glob_items"):
         return members(fs, dep[1])
@@ -74,16 +116,20 @@ def dep_paths(dep, fs):
 def fp_code(dep, fs):
     """(superficial, thorough) as the code compares them; None: the dependency cannot be inspected"""
     k = dep[0]
-    if k in ("file", "param", "lines", "line_items", "regex", "regex_items", "generic"):
+    if k in ("file", "param", "lines", "line_items", "regex", "regex_items", "generic", "sqlite"):
         if dep[1] not in fs:
             return None
         data = fs[dep[1]][1]
     if k == "file":
         return (meta(fs, dep[1]), norm(data))
+    if k == "sqlite":
+        return (meta(fs, dep[1]), sql_query(data, dep[2]))      # metadata of the database file; the result of the query
     if k == "glob":
+        # superficial: names + metadata of the members (xvc_paths_digest, xvc_metadata_digest); thorough (content level):
+        # names + contents.  Whether the code's thorough comparison also looks at the superficial part is the model's
+        # switch v_glob_content (fixed_P73), derived from the executed table of GlobDep::diff_thorough
         ms = members(fs, dep[1])
-        sup = tuple((p, meta(fs, p)) for p in ms)
-        return (sup, (sup, tuple(norm(fs[p][1]) for p in ms)))   # GlobDep::diff_thorough also compares the metadata digest
+        return (tuple((p, meta(fs, p)) for p in ms), tuple((p, norm(fs[p][1])) for p in ms))
     if k == "glob_items":
         ms = members(fs, dep[1])
         return (tuple((p, meta(fs, p)) for p in ms), tuple((p, norm(fs[p][1])) for p in ms))
@@ -107,6 +153,8 @@ def sem(dep, fs):
         return fs[dep[1]][1] if dep[1] in fs else None
     if k in ("glob", "glob_items"):
         return tuple((p, fs[p][1]) for p in members(fs, dep[1]))
+    if k == "sqlite":
+        return sql_query(fs[dep[1]][1], dep[2]) if dep[1] in fs else None
     if k == "param":
         return param_value(fs[dep[1]][1], dep[2]) if dep[1] in fs else None
     if k in ("lines", "line_items"):
@@ -149,6 +197,8 @@ def dep_cli(dep):
         return ["--regex_items", "%s:/%s" % (dep[1], dep[2])]
     if k == "generic":
         return ["--generic", "cat " + dep[1]]
+    if k == "sqlite":
+        return ["--sqlite-query", dep[1], dep[2]]
     if k == "step":
         return ["--step", dep[1]]
     raise ValueError(k)
@@ -178,6 +228,8 @@ class Clock:
 def apply_edit(fs, e, clock, codes):
     """applies one edit to the simulated file map; returns the list of paths to (re)write / delete on disk"""
     k = e[0]
+    if k in ("append", "touch", "crlf", "setline", "param", "sqlset") and e[1] not in fs:
+        return []                   # only while shrinking: the edit that created / renamed the file was dropped
     if k == "append":
         fs[e[1]] = [clock.tick(), fs[e[1]][1] + e[2].encode()]
         return [e[1]]
@@ -190,6 +242,10 @@ def apply_edit(fs, e, clock, codes):
     if k == "remove":
         fs.pop(e[1], None)
         return [e[1]]
+    if k == "rename":               # content and modification time go with the file
+        if e[1] in fs and e[2] not in fs:
+            fs[e[2]] = fs.pop(e[1])
+        return [e[1], e[2]]
     if k == "crlf":
         d = fs[e[1]][1]
         d = d.replace(b"\r\n", b"\n") if b"\r\n" in d else d.replace(b"\n", b"\r\n")
@@ -209,6 +265,11 @@ def apply_edit(fs, e, clock, codes):
         ls = lines_of(fs[e[1]][1])
         ls = [(("%s: %s" % (e[2], e[3])).encode() if l.startswith(e[2].encode() + b":") else l) for l in ls]
         fs[e[1]] = [clock.tick(), b"\n".join(ls) + b"\n"]
+        return [e[1]]
+    if k == "sqlset":               # INSERT OR REPLACE of one row; the database file is rewritten
+        rows = dict((int(a), b) for a, b in sql_rows(fs[e[1]][1]))
+        rows[int(e[2])] = e[3]
+        fs[e[1]] = [clock.tick(), sql_db(tuple(sorted(rows.items())))]
         return [e[1]]
     if k == "fail":
         codes[e[1]] = int(e[2])
@@ -236,7 +297,7 @@ def edges_of(sc):
     res = []
     for i, st in enumerate(sc["steps"]):
         sd = [idx[d[1]] for d in st["deps"] if d[0] == "step"]
-        im = sorted({prod[d[1]] for d in st["deps"] if d[0] in ("file", "param", "lines", "line_items", "regex", "regex_items")
+        im = sorted({prod[d[1]] for d in st["deps"] if d[0] in ("file", "param", "lines", "line_items", "regex", "regex_items", "sqlite")
                      and d[1] in prod and prod[d[1]] != i})
         res.append((sd, im))
     return res
@@ -254,11 +315,22 @@ def is_forced(st):
     return st["when"] == "always" or (st["when"] == "by_dependencies" and not st["deps"])
 
 
+# set by run() from the source (gen/difftables.py:graph_build_reads_metadata): does dependencies_to_path still ask the
+# path-metadata provider about declared outputs while the graph is built?  False since /repo b24ba95e: the class
+# stale-output-metadata-cache is then empty and suppresses nothing.
+STALE_CLASS_ACTIVE = True
+# set by run() from the executed table of GlobDep::diff_thorough: the code has the repair of glob-member-touch (P73)
+GLOB_FIXED = False
+
+
 def stale_suspects(sc):
     """class stale-output-metadata-cache: in a pipeline with a --glob dependency, the steps that read an output of
     another step (and the steps downstream of them).  glob_includes() caches the metadata of every output path
     through XvcPathMetadataProvider::path_present() while the graph is built; whether the reader later sees the
-    cached or the current metadata depends on the notify watcher thread."""
+    cached or the current metadata depends on the notify watcher thread.  Empty when the graph is built without
+    the provider (STALE_CLASS_ACTIVE False)."""
+    if not STALE_CLASS_ACTIVE:
+        return set()
     if not any(d[0] == "glob" for st in sc["steps"] for d in st["deps"]):
         return set()
     prod = producers(sc)
@@ -307,7 +379,8 @@ def model_line(sc, fs, codes, recs, rnd, ids, variant="code", mode="all"):
                         f = fp_code(d2, fs2)
                         effs.append("%d=%d/%d" % (depno[(i2, j2)], ids(("s", d2[0], f[0])), ids(("t", d2[0], f[1]))))
         steps.append("%s:%s:%s:%s:%d:%s" % (
-            when_letter(st["when"]), ",".join(str(depno[(i, j)]) for j in range(len(own_deps(st)))),
+            when_letter(st["when"]),
+            ",".join("%d%s" % (depno[(i, j)], "g" if d[0] == "glob" else "") for j, d in enumerate(own_deps(st))),
             ",".join(map(str, E[i][0])), ",".join(map(str, E[i][1])), 0 if codes.get(st["name"]) else 1, ",".join(effs)))
     return "%s %s | %s | %s | %s | " % (mode, variant, ";".join(steps), recs, ",".join(world))
 
@@ -392,7 +465,8 @@ def oracle_round(sc, r, executed, dup, before, after, last, prev_ok, codes):
             if direct[i] or upstream_ran:
                 continue
             k = None
-            if any(x["kind"] == "glob" and x["tho_changed"] and not x["sem_changed"] for x in info[i]):
+            # the class follows the switch: with the repair in the code it is empty and suppresses nothing
+            if not GLOB_FIXED and any(x["kind"] == "glob" and x["sup_changed"] and not x["tho_changed"] for x in info[i]):
                 k = "glob-member-touch"
             elif touched and not any(x["tho_changed"] for x in info[i]) and \
                     any(any(x["tho_changed"] for x in info[o]) for o in range(n) if o != i and not never[o]):
@@ -591,9 +665,10 @@ def run_scenario(xvc, model, sc, variant="code", jitter_shift=0, keep_going=Fals
                         f = fp_code(d, fs)
                         l = last.get((i, j))
                         cur = {"sem": sem(d, fs), "nb": sem_nobreak(d, fs), "sup": f[0] if f else None, "tho": f[1] if f else None}
-                        if l is not None and l["tho"] == cur["tho"]:
+                        if l is not None and l["tho"] == cur["tho"] and (GLOB_FIXED or d[0] != "glob"):
                             # the content-level value is what it was: the run keeps its record, and with it the
-                            # metadata of the last real change ("touched since" stays visible to the class predicates)
+                            # metadata of the last real change ("touched since" stays visible to the class predicates);
+                            # a --glob dependency of the code before the repair of P73 records the new metadata
                             cur["sup"] = l["sup"]
                         last[(i, j)] = cur
             prev_ok = ok_run
@@ -611,11 +686,14 @@ BASE_FILES = {
     "g/a.dat": "ga\n",
     "g/b.dat": "gb\n",
     "h/a.csv": "ha\n",
+    "d.sqlite": sql_db(((1, "one"), (2, "two"), (20, "twenty"))).decode("latin-1"),
 }
 
 
 def random_dep(rng):
-    k = rng.choice(["file", "file", "glob", "glob_items", "param", "lines", "line_items", "regex", "regex_items", "generic"])
+    k = rng.choice(["file", "file", "glob", "glob_items", "param", "lines", "line_items", "regex", "regex_items", "generic", "sqlite"])
+    if k == "sqlite":
+        return ["sqlite", "d.sqlite", SQL_QUERY]
     if k == "file":
         return ["file", rng.choice(["f0.txt", "f1.txt", "f2.txt"])]
     if k == "glob":
@@ -641,7 +719,7 @@ def random_scenario(rng, nmax=4, rounds=(3, 6)):
         if rng.random() < 0.93:
             for _ in range(rng.choice([1, 1, 2])):
                 d = random_dep(rng)
-                if d not in deps:
+                if d not in deps and not (d[0] == "sqlite" and any(x[0] == "sqlite" for x in deps)):   # --sqlite-query: once per step
                     deps.append(d)
         # read an output of an earlier step
         prods = [s for s in steps if s.get("outs") and s["when"] != "never"]
@@ -655,7 +733,7 @@ def random_scenario(rng, nmax=4, rounds=(3, 6)):
             st["outs"] = [["o%d.txt" % i] + rng.choice([["const", "K%d" % i], ["copy", rng.choice(["f0.txt", "f2.txt"])]])]
         steps.append(st)
     sc = {"files": dict(BASE_FILES), "steps": steps, "rounds": [{"edits": [], "jitter": rng.randrange(1000)}]}
-    fs = {p: [T0, c.encode()] for p, c in sc["files"].items()}
+    fs = {p: [T0, c.encode("latin-1")] for p, c in sc["files"].items()}
     codes, clock = {}, Clock()
     failing = None
     for r in range(rng.randint(*rounds) - 1):
@@ -681,13 +759,16 @@ def random_edit(rng, sc, fs, failing):
     base = sorted({d[1] for d in used if d[0] in ("file", "lines", "line_items", "regex", "regex_items", "generic") and d[1] in BASE_FILES})
     globs = sorted({d[1] for d in used if d[0] in ("glob", "glob_items")})
     has_param = any(d[0] == "param" for d in used)
+    has_sql = any(d[0] == "sqlite" for d in used)
     kinds = []
     if base:
         kinds += ["append", "append", "touch", "touch", "crlf", "setline", "setline"]
     if globs:
-        kinds += ["add", "remove", "gtouch", "gappend"]
+        kinds += ["add", "remove", "gtouch", "gtouch", "gappend", "grename"]
     if has_param:
         kinds += ["param", "param", "ptouch"]
+    if has_sql:
+        kinds += ["sqlsel", "sqlsel", "sqlother", "sqltouch"]
     if failing is None and any(st["when"] != "never" for st in sc["steps"]):
         kinds += ["fail"]
     if not kinds:
@@ -701,7 +782,7 @@ def random_edit(rng, sc, fs, failing):
         return ["crlf", rng.choice(base)]
     if k == "setline":
         return ["setline", rng.choice(base), rng.choice([0, 1, 3, 4]), "k9 edited%d" % rng.randrange(100)]
-    if k in ("add", "remove", "gtouch", "gappend"):
+    if k in ("add", "remove", "gtouch", "gappend", "grename"):
         pat = rng.choice(globs)
         ms = members(fs, pat)
         if k == "add" or not ms:
@@ -710,11 +791,23 @@ def random_edit(rng, sc, fs, failing):
             return ["remove", rng.choice(ms)] if len(ms) > 1 else ["touch", ms[0]]
         if k == "gtouch":
             return ["touch", rng.choice(ms)]
+        if k == "grename":
+            # a new name that keeps the member's place in the sorted list (names matter, not only contents in order)
+            old = rng.choice(ms)
+            stem, ext = os.path.splitext(old)
+            new = (stem[:-2] if stem.endswith("_r") else stem + "_r") + ext
+            return ["rename", old, new] if new not in fs else ["touch", old]
         return ["append", rng.choice(ms), "more%d\n" % rng.randrange(100)]
     if k == "param":
         return ["param", "p.yaml", rng.choice(["a", "b"]), str(rng.randrange(3, 100))]
     if k == "ptouch":
         return ["touch", "p.yaml"]
+    if k == "sqlsel":               # a row the query selects: the result changes
+        return ["sqlset", "d.sqlite", rng.choice([1, 2, 3]), "v%d" % rng.randrange(100)]
+    if k == "sqlother":             # a row the query does not select: the file changes, the result does not
+        return ["sqlset", "d.sqlite", rng.choice([20, 21]), "w%d" % rng.randrange(100)]
+    if k == "sqltouch":
+        return ["touch", "d.sqlite"]
     if k == "fail":
         cands = [st["name"] for st in sc["steps"] if st["when"] != "never"]
         return ["fail", rng.choice(cands), 1]
@@ -798,13 +891,20 @@ def regenerate_tables(chk):
     dt = importlib.util.module_from_spec(spec)
     spec.loader.exec_module(dt)
     text, problems = dt.generate(out if rc == 0 else "", C.REPO)
+    gproblems = []
+    _gsup, gtho = dt.parse_glob_tables(out if rc == 0 else "", gproblems)
+    # fixed_P73, as Gen/DiffTables.v computes it: members touched, names and contents as recorded -> no change
+    glob_fixed = (not gproblems) and gtho[("false", "false", "same")] in ("Identical", "Skipped")
+    reads_md, why = dt.graph_build_reads_metadata(C.REPO)
     path = os.path.join(C.COQ, "theories", "Gen", "DiffTables.v")
     if not os.path.exists(path) or open(path).read() != text:
         with open(path, "w") as fh:
             fh.write(text)
     chk.cov["generated"] = {"file": "coq/theories/Gen/DiffTables.v", "problems": problems,
                             "code_thorough_own_only": "code_thorough_own_only : bool := true" in text,
-                            "code_tnc_consults_dep_steps": "code_tnc_consults_dep_steps : bool := true" in text}
+                            "code_tnc_consults_dep_steps": "code_tnc_consults_dep_steps : bool := true" in text,
+                            "code_glob_thorough_content_only": glob_fixed,
+                            "graph_build_reads_path_metadata": reads_md, "graph_build_reads_path_metadata_why": why}
     if rc != 0 or problems:
         chk.fail("proof", "table extraction failed: tabledrv rc=%s, %s" % (rc, "; ".join(problems)[:400]),
                  {"theorem_or_correspondence": "Gen/DiffTables.v (gen/difftables.py)"}, name="gen", has_input=False)
@@ -830,7 +930,11 @@ def run(chk, replay=None):
     chk.assumptions += ["edits_visible: every edit of the runner changes size or mtime (mtimes set with os.utime)",
                         "step commands write only the journal and their declared outputs; outputs are read by downstream steps only",
                         "tho_faithful per kind is what vlib/c12.py:fp_code computes (validated by the correspondence, not proved)"]
+    global GLOB_FIXED, STALE_CLASS_ACTIVE
     gen = regenerate_tables(chk)
+    GLOB_FIXED = bool(gen["code_glob_thorough_content_only"])
+    # an unparseable dependencies_to_path (None) keeps the class active: nothing is claimed about it
+    STALE_CLASS_ACTIVE = gen["graph_build_reads_path_metadata"] is not False
     chk.proof()
     try:
         model = C.ensure_model("Inval", ["Gen", "Inval"])
@@ -843,6 +947,14 @@ def run(chk, replay=None):
             raise
     xvc = C.ensure_xvc()
     code_fixed = gen["code_thorough_own_only"] and gen["code_tnc_consults_dep_steps"]
+    # the switch of the extracted model (v_code, from the compiled tables) must be the one read off the executed table
+    rc_p, outp = C.run_lines(model, ["run code | b:1g:::1: | 1=10/100 | 1=11/100 | "])
+    mflag = re.search(r"globfixed=([01])", outp[0]) if outp else None
+    chk.cov["model_glob_fixed"] = mflag.group(1) if mflag else None
+    if mflag is None or (mflag.group(1) == "1") != GLOB_FIXED:
+        chk.fail("correspondence", "switch fixed_P73 inconclusive: executed table of GlobDep::diff_thorough says %s, extracted model says %r" % (
+            GLOB_FIXED, outp[:1]), {"theorem_or_correspondence": "Gen/DiffTables.v code_glob_thorough_content_only vs invalmodel globfixed"},
+                 name="switch", has_input=False)
 
     scenarios = []          # (name, scenario, repeats)
     if replay and isinstance(replay.get("input") or replay.get("scenario"), dict):
@@ -926,15 +1038,21 @@ def run(chk, replay=None):
         kind, what, klass, rnd = f
         chk.fail("oracle" if kind == "oracle" else "correspondence", what,
                  {"input": small, "failing_run": rnd, "scenario": name, "repeats": 6, "class": klass,
-                  "code_has_P15_repair": code_fixed,
+                  "code_has_P15_repair": code_fixed, "code_has_P73_repair": GLOB_FIXED,
+                  "stale_cache_class_active": STALE_CLASS_ACTIVE,
                   "theorem_or_correspondence": "executed set of every run in the model's all_outcomes (invalmodel vs xvc pipeline run); theorems of Props/C12.v"},
                  name="scen", klass=klass, has_input=(kind == "oracle"))
     chk.cov["rule"] = ("a run is one `xvc pipeline run` of a generated pipeline (2-5 steps, dependency kinds file/glob/glob_items/param/lines/line_items/"
-                       "regex/regex_items/generic/step, outputs read by later steps, when = by_dependencies/always/never) after a list of edits "
-                       "(append, touch, crlf, setline, glob add/remove/touch/append, parameter edit, fail/unfail a step, nothing); evaluated = judged by the "
+                       "regex/regex_items/generic/sqlite-query/step, outputs read by later steps, when = by_dependencies/always/never) after a list of edits "
+                       "(append, touch, crlf, setline, glob add/remove/touch/append/rename, parameter edit, SQLite row selected / not selected by the query, fail/unfail a step, nothing); evaluated = judged by the "
                        "oracle and compared with the model's set of allowed executed sets; non-trivial = not the first run of its scenario (records exist, "
                        "so the executed set is decided by the comparisons); distinct by (pipeline, edit history up to the run)")
     chk.cov["distribution"] = dist
     chk.cov["code_has_P15_repair"] = code_fixed
+    chk.cov["code_has_P73_repair"] = GLOB_FIXED
+    chk.cov["stale_cache_class_active"] = STALE_CLASS_ACTIVE
+    chk.cov["theorems_claimed_for_code"] = (
+        ["C12_touch_full_fixed (no class excluded: v_code has v_own_only and v_glob_content)"] if (GLOB_FIXED and gen["code_thorough_own_only"])
+        else ["touch_outside_glob_class (class Known_glob_touch excluded: the code compares the metadata digests of a --glob dependency)"])
     chk.cov["exhaustive"] = False
     return chk
